@@ -37,3 +37,11 @@ Lemma quiet_drop_harmless :
   c21_ok w_quiet_drop tr = true /\ c21_exact w_quiet_drop tr = true /\ c21_class w_quiet_drop tr = 0 /\
   has_fault w_quiet_drop = true.
 Proof. vm_compute. repeat split. Qed.
+
+Lemma examples21 :
+  (let tr := run21 w_no_fault in
+   c21_ok w_no_fault tr = true /\ c21_exact w_no_fault tr = true /\ c21_class w_no_fault tr = 0) /\
+  (let tr := run21 w_quiet_drop in
+   c21_ok w_quiet_drop tr = true /\ c21_exact w_quiet_drop tr = true /\ c21_class w_quiet_drop tr = 0 /\
+   has_fault w_quiet_drop = true).
+Proof. split; [exact no_fault_exact|exact quiet_drop_harmless]. Qed.
